@@ -182,43 +182,54 @@ def r2_r4(ctx, cfg):
 
 
 def r3(ctx, cfg):
+    """normalize_amount keeps exactly the non-zero coins of its argument, in order, and succeeds only when something
+    remains.  Form-agnostic (vlib/pipeline.py): `amount.into_iter().filter(|c| !c.amount.is_zero()).collect()` and
+    `for c in amount { if !c.amount.is_zero() { v.push(c) } }` have the same contributions."""
+    from vlib import pipeline
     F, P = cfg.facts, cfg.prov
     R = "C09.R3"
     key = B + "normalize_amount"
     f = ctx.need_fn(R, key)
     if f is None:
         return
-    cf = cfg_of(f)
-    fil = q.calls(f, "std::iter::Iterator::filter")
-    ok = len(fil) == 1
-    if ok:
-        a = P.call_args(f, fil[0][1], fil[0][0])
-        ok = is_param(a[0], "amount")
-    ctx.ob(R, key, "filters-the-argument", ok, "normalize_amount does not filter its argument", fn=f, sample="amount.into_iter().filter(..)")
-    clos = [g for g in F.lexical(key) if g.kind == "closure"]
-    ok = len(clos) == 1
-    if ok:
-        g = clos[0]
-        pred, args, pol = q.norm_cond(P.ret(g), True)
-        ok = pred == "is_zero" and pol is False and contains(args[0], lambda x: x[0] == "field" and x[2] == "amount")
-    ctx.ob(R, key, "keeps-exactly-non-zero-coins", ok, "filter predicate is not `!coin.amount.is_zero()`", fn=f, sample="|x| !x.amount.is_zero()")
-    # Ok only for a non-empty result; Err otherwise
     n = 0
+    seen_ok = False
     for bid, i, st in f.stmts():
         if st["k"] == "assign" and st["dst"]["l"] == 0 and not st["dst"]["p"]:
-            o = peel(P.rvalue(f, st["rv"], (bid, i)))
+            raw = P.rvalue(f, st["rv"], (bid, i))
+            o = peel(raw)
             conds = q.dominating_conditions(P, f, bid)
             if o[0] == "agg" and o[1].endswith("Result::Ok"):
                 n += 1
-                pay = peel(o[2][0][1])
-                ok = q.has_cond(conds, "is_empty", pol=False) and pay[0] == "call" and pay[1] == "std::iter::Iterator::collect"
+                seen_ok = True
+                pay = o[2][0][1]
+                cs = pipeline.contents(P, F, f, pay)
+                d = str(cs)[:200]
+                one = len(cs) == 1 and cs[0].kind in ("all-of", "expr")
+                ctx.ob(R, key, "filters-the-argument", one and is_param(cs[0].src, "amount") and cs[0].is_identity() and not cs[0].adapters,
+                       "normalize_amount does not return (a selection of) the coins of its argument in order: %s" % d, fn=f, line=st["line"], sample=d)
+                okp = one and len(cs[0].conds) == 1
+                if okp:
+                    pred, args, pol = cs[0].conds[0]
+                    a0 = peel(args[0]) if args else ("?",)
+                    okp = pred == "is_zero" and pol is False and a0[0] == "field" and a0[2] == "amount" and peel(a0[1])[0] == "bound" and peel(a0[1])[1] == "elem"
+                ctx.ob(R, key, "keeps-exactly-non-zero-coins", okp, "the coins kept are selected by %s, expected exactly `!coin.amount.is_zero()`" % (cs[0].conds if one else d,), fn=f,
+                       line=st["line"], sample="!coin.amount.is_zero()")
+                # .. and only under the non-empty guard on that very vector
+                ok = q.has_cond(conds, "is_empty", pol=False, arg_pred=lambda a: same_origin(a[0], pay) or same_origin(peel(a[0]), peel(pay)))
                 ctx.ob(R, key, "Ok-only-when-something-remains", ok, "Ok(..) returned without the non-empty guard: %s" % fmt(o)[:100], fn=f,
                        line=st["line"], sample="Ok(res) under !res.is_empty()")
-            elif o[0] == "agg" and o[1].endswith("Result::Err"):
+            elif (o[0] == "agg" and o[1].endswith("Result::Err")) or (o[0] == "call" and o[1].endswith("FromResidual::from_residual")):
                 n += 1
                 ctx.ob(R, key, "Err-when-nothing-remains", q.has_cond(conds, "is_empty", pol=True), "Err returned outside the empty case", fn=f,
                        line=st["line"], sample="Err under res.is_empty()")
-    ctx.ob(R, key, "two-returns", n == 2, "expected one Ok and one Err return, found %d" % n, fn=f, sample="2")
+    for bid, t in f.calls():
+        if t["dst"]["l"] == 0 and not t["dst"]["p"]:
+            n += 1
+            conds = q.dominating_conditions(P, f, bid)
+            ctx.ob(R, key, "Err-when-nothing-remains", q.has_cond(conds, "is_empty", pol=True) and t["callee"]["key"].endswith("FromResidual::from_residual"),
+                   "a call result is returned outside the empty case", fn=f, line=t["line"], sample="Err under res.is_empty()")
+    ctx.ob(R, key, "two-returns", n == 2 and seen_ok, "expected one Ok and one Err return, found %d" % n, fn=f, sample="2")
 
 
 def r5(ctx, cfg):
